@@ -78,6 +78,9 @@ func main() {
 	genICMP6(cl, rng.Fork(), scale)
 	genDHCP4(cl, rng.Fork(), scale)
 	genDNSProc(cl, rng.Fork(), scale)
+	genLLMNR(cl, rng.Fork(), scale)
+	genUPNP(cl, rng.Fork(), scale)
+	genOther(cl, rng.Fork(), scale)
 
 	// every endless loop costs its time-out: once the budget of observed hangs is used up the
 	// remaining cases of hang-prone classes are dropped (deterministic: fixed chunks, fixed order)
